@@ -225,7 +225,7 @@ def run(ck):
         e = byid[i]
         if e["kind"] == "bigarith":
             for cl in fails:
-                if cl == "print_parse_returns_same_object" or e["res"] != "ok":
+                if cl in ("print_parse_returns_same_object", "human_readable_round_trip_keeps_the_meaning") or e["res"] != "ok":
                     ck.violation({"kind": "bigarith", "clause": cl, "sort": e["sort"], "op": e["op"], "exc": e["exc"].split(":")[0]}, {"event": e})
             continue
         for cl in fails:
